@@ -16,6 +16,19 @@ Val(r) == IF r.res = "ok" THEN <<"val", <<r.out[1], r.out[2]>>>>
           ELSE IF r.res = "ValueError" THEN <<"valueerror">> ELSE IF r.res = "liberr" THEN <<"liberr">> ELSE <<r.res>>
 SameVal(a, b) == a[1] = b[1] /\ (a[1] # "val" \/ REq(a[2], b[2]))
 
+\* entries of a recorded ttsv2 matrix that differ from the definition
+Ttsv2Wrong(r) == LET t2 == TTSV2(r.mem, r.n, r.k, r.s)
+                 IN {p \in (1..r.n) \X (1..r.n) : ~REq(r.out[p[1]][p[2]], t2[p[1]][p[2]])}
+\* the diagonal entry of node v is computed by the series-convolution branch for an edge of l members
+\* (v and at least one other node) when 2^(l-1) >= (r-2)(l-1)
+ConvBranchDiag(r, v) == \E k \in DOMAIN r.mem : LET l == Len(r.mem[k]) IN
+                          (v - 1) \in Range(r.mem[k]) /\ l >= 2 /\ 2 ^ (l - 1) >= (r.k - 2) * (l - 1)
+Ttsv2Clause(r) == LET W == Ttsv2Wrong(r) IN
+                  IF r.res # "ok" THEN "X01:ttsv2.raised"
+                  ELSE IF \A p \in W : p[1] = p[2] /\ ConvBranchDiag(r, p[1]) THEN "X01:ttsv2.diagonal.convolution-branch"
+                  ELSE IF \A p \in W : p[1] = p[2] THEN "X01:ttsv2.diagonal"
+                  ELSE "X01:ttsv2.offdiagonal"
+
 Holds(r) ==
   CASE r.fn = "powerset" -> r.res = "ok" /\ r.out = Powerset(r.s, r.b[1], r.b[2], r.b[3], r.k)
     [] r.fn = "subfaces" -> IF SubfacesRejected(r.edges, r.k) THEN r.res = "liberr"
@@ -76,10 +89,14 @@ Holds(r) ==
               /\ r.out[2] = [k \in DOMAIN S.nodes |-> val(S.nodes[k])]
               /\ r.out[3] = SelectSeq(S.nodes, LAMBDA n : val(n) >= r.k)
               /\ r.out[4] = [k \in DOMAIN S.edges |-> 10 * SizeOf(S, S.edges[k])]
+    [] r.fn = "ttsv1" ->
+         \* the vector of rationals returned for the integer vector r.s, maximum edge size r.k
+         r.res = "ok" /\ LET t1 == TTSV1(r.mem, r.n, r.k, r.s) IN \A a \in 1..r.n : REq(r.out[a], t1[a])
+    [] r.fn = "ttsv2" -> r.res = "ok" /\ Ttsv2Wrong(r) = {}
     [] OTHER -> FALSE
 
 Verdict(r) == IF r.anom # <<>> THEN <<"X01:anomaly." \o r.anom[1]>>
-              ELSE IF Holds(r) THEN <<>> ELSE <<"X01:" \o r.fn>>
+              ELSE IF Holds(r) THEN <<>> ELSE IF r.fn = "ttsv2" THEN <<Ttsv2Clause(r)>> ELSE <<"X01:" \o r.fn>>
 
 Init == i = 0
 Next == i < Len(Recs) /\ i' = i + 1
